@@ -31,15 +31,28 @@ Theorem C11_alg_implied_registered : forall a i, g_alg_implies a = Some i -> In 
 Proof. exact alg_implies_registered. Qed.
 Print Assumptions C11_alg_implied_registered.
 
-(* every accepted template is a consistent request for something generable with supported parameters ... *)
-Theorem C11_accepted_is_consistent : forall X, wf_bytes (x_rand X) -> forall t k,
-  jwk_gen X t = Some k -> nodup_keys t -> g_template_ok t = true.
+(* the key type of an accepted key is the one the template asks for (the algorithm's, else "kty") *)
+Theorem C11_kty_as_requested : forall X, wf_bytes (x_rand X) -> forall t k,
+  jwk_gen X t = Some k -> nodup_keys t ->
+  exists h, g_kty_request t = Some h /\ g_req_s g_kty k = Some (g_make_kty h).
+Proof. exact gen_kty_as_requested. Qed.
+Print Assumptions C11_kty_as_requested.
+
+(* every accepted template is a consistent request for something generable with supported parameters ...
+   [g_template_ok] asks for an EVEN RSA size: with what OpenSSL 3 delivers for the requests mkrsa lets through
+   (a modulus of 2 * (bits / 2) bits; hypothesis) mkrsa's test RSA_bits(key) != bits refuses every odd size *)
+Theorem C11_accepted_is_consistent : forall X, wf_bytes (x_rand X) ->
+  (forall bits e rk, (2048 <= bits <= g_rsa_max_bits)%Z -> g_check_public_exponent e = true ->
+     x_rsa X bits e = Some rk -> Z.of_N (N.size (rk_n rk)) = (2 * (bits / 2))%Z) ->
+  forall t k, jwk_gen X t = Some k -> nodup_keys t -> g_template_ok t = true.
 Proof. exact gen_accepted_ok. Qed.
 Print Assumptions C11_accepted_is_consistent.
 
-(* ... so contradictory / unsupported / too small / nothing-generable templates are rejected *)
-Theorem C11_rejects : forall X, wf_bytes (x_rand X) -> forall t,
-  nodup_keys t -> g_template_ok t = false -> jwk_gen X t = None.
+(* ... so contradictory / unsupported / too small / odd-RSA-size / nothing-generable templates are rejected *)
+Theorem C11_rejects : forall X, wf_bytes (x_rand X) ->
+  (forall bits e rk, (2048 <= bits <= g_rsa_max_bits)%Z -> g_check_public_exponent e = true ->
+     x_rsa X bits e = Some rk -> Z.of_N (N.size (rk_n rk)) = (2 * (bits / 2))%Z) ->
+  forall t, nodup_keys t -> g_template_ok t = false -> jwk_gen X t = None.
 Proof. exact gen_rejects. Qed.
 Print Assumptions C11_rejects.
 
@@ -52,7 +65,8 @@ Print Assumptions C11_contradictory_rejected.
 Theorem C11_accepts_iff : forall X,
   wf_bytes (x_rand X) -> (N.to_nat keymax <= length (x_rand X))%nat ->
   (forall bits e, (2048 <= bits <= g_rsa_max_bits)%Z -> g_check_public_exponent e = true ->
-     exists rk, x_rsa X bits e = Some rk /\ Forall (fun mx => snd mx <> 0) (g_rsa_fields rk)) ->
+     exists rk, x_rsa X bits e = Some rk /\ Forall (fun mx => snd mx <> 0) (g_rsa_fields rk) /\
+                Z.of_N (N.size (rk_n rk)) = (2 * (bits / 2))%Z) ->
   (forall c, exists ek, x_ec X c = Some ek /\
      Forall (fun mx => snd mx <> 0 /\ g_num_bytes (snd mx) <= g_curve_len c) (g_ec_fields ek)) ->
   forall t, g_plain_template t -> (jwk_gen X t <> None <-> g_template_ok t = true).
@@ -106,12 +120,13 @@ Theorem C11_rsa_negative_exponent_rejected : forall t z,
 Proof. exact rsa_negative_exponent_rejected. Qed.
 Print Assumptions C11_rsa_negative_exponent_rejected.
 
-(* the members of an accepted RSA key are the generated numbers, minimal-width big-endian base64url *)
+(* the members of an accepted RSA key are the generated numbers, minimal-width big-endian base64url; the modulus
+   has EXACTLY the requested number of bits (mkrsa fails when RSA_bits(key) != bits) -- no hypothesis on OpenSSL *)
 Theorem C11_rsa_members : forall X, wf_bytes (x_rand X) -> forall t k,
   jwk_gen X t = Some k -> nodup_keys t -> g_req_s g_kty k = Some g_RSA ->
   exists bits e rk,
     g_rsa_request t = Some (bits, e) /\ (2048 <= bits <= g_rsa_max_bits)%Z /\ g_check_public_exponent e = true /\
-    x_rsa X bits e = Some rk /\
+    x_rsa X bits e = Some rk /\ Z.of_N (N.size (rk_n rk)) = bits /\
     (forall m x, In (m, x) (g_rsa_fields rk) ->
        exists jm, lookup m k = Some jm /\ g_bn_decode_json jm = Some x /\
                   exists b, jm = JStr (enc b) /\ dec (enc b) = Some b /\ blen b = g_num_bytes x /\ g_os2ip b = x) /\
@@ -120,8 +135,9 @@ Proof. exact gen_rsa_members. Qed.
 Print Assumptions C11_rsa_members.
 
 (* with OpenSSL's guarantee about RSA_generate_key_ex as a hypothesis (g_rsa_good: modulus of 2*(bits/2) bits,
-   exponent as asked, n = p q, e d = 1 mod lcm(p-1, q-1), CRT members): the size is the requested one when it is
-   even (one bit less when odd -- OpenSSL), never under 2048; exponent as requested; consistency *)
+   exponent as asked, n = p q, e d = 1 mod lcm(p-1, q-1), CRT members): the size is EXACTLY the requested one
+   (from the model alone), hence the requested size is even (OpenSSL's one-bit-short key for an odd size is
+   refused by mkrsa); exponent as requested; consistency *)
 Theorem C11_rsa_consistent : forall X, wf_bytes (x_rand X) ->
   (forall bits e rk, x_rsa X bits e = Some rk -> g_rsa_good bits e rk) ->
   forall t k, jwk_gen X t = Some k -> nodup_keys t -> g_req_s g_kty k = Some g_RSA ->
@@ -130,11 +146,28 @@ Theorem C11_rsa_consistent : forall X, wf_bytes (x_rand X) ->
     (e = 3 \/ (N.odd e = true /\ 2 ^ 16 <= e < 2 ^ 256)) /\
     (forall m x, In (m, x) (g_rsa_fields rk) -> g_member_num m k = Some x) /\
     g_rsa_good bits e rk /\
-    (2048 <= Z.of_N (N.size (rk_n rk)) <= bits)%Z /\
-    (Z.even bits = true -> Z.of_N (N.size (rk_n rk)) = bits) /\
+    Z.of_N (N.size (rk_n rk)) = bits /\
+    Z.even bits = true /\
     lookup g_bits k = None.
 Proof. exact gen_rsa_consistent. Qed.
 Print Assumptions C11_rsa_consistent.
+
+(* under OpenSSL's behaviour a request for an RSA key of odd size is always refused (never a key one bit short) *)
+Theorem C11_rsa_odd_size_refused : forall X, wf_bytes (x_rand X) ->
+  (forall bits e rk, x_rsa X bits e = Some rk -> g_rsa_good bits e rk) ->
+  forall t bits e, nodup_keys t -> g_kty_request t = Some GMRsa -> g_rsa_request t = Some (bits, e) ->
+  Z.odd bits = true -> jwk_gen X t = None.
+Proof. exact gen_rsa_odd_refused. Qed.
+Print Assumptions C11_rsa_odd_size_refused.
+
+(* the same from the size clause of the guarantee alone, and only for the requests mkrsa lets through *)
+Theorem C11_rsa_odd_size_rejected : forall X, wf_bytes (x_rand X) ->
+  (forall bits e rk, (2048 <= bits <= g_rsa_max_bits)%Z -> g_check_public_exponent e = true ->
+     x_rsa X bits e = Some rk -> Z.of_N (N.size (rk_n rk)) = (2 * (bits / 2))%Z) ->
+  forall t bits e, nodup_keys t -> g_kty_request t = Some GMRsa -> g_rsa_request t = Some (bits, e) ->
+  Z.odd bits = true -> jwk_gen X t = None.
+Proof. exact gen_rsa_odd_size_rejected. Qed.
+Print Assumptions C11_rsa_odd_size_rejected.
 
 (* ---- EC -------------------------------------------------------------------------------------------------- *)
 
@@ -246,7 +279,19 @@ Proof. vm_compute. repeat split; reflexivity. Qed.
 Example ex_rsa_accepted :
   g_rsa_request ex_rsa_3072 = Some (3072%Z, 65537) /\
   match jwk_gen g_demo_ext ex_rsa_3072 with
-  | Some k => g_req_s g_kty k = Some g_RSA /\ lookup g_bits k = None /\ g_member_num g_n k = Some 3233
+  | Some k => g_req_s g_kty k = Some g_RSA /\ lookup g_bits k = None /\
+              g_member_num g_n k = Some (g_demo_modulus 3072) /\ N.size (g_demo_modulus 3072) = 3072
+  | None => False
+  end.
+Proof. vm_compute. repeat split; reflexivity. Qed.
+
+(* an odd size: the generator delivers 2048 bits for 2049, mkrsa refuses; 2050 is delivered as asked *)
+Example ex_rsa_odd_refused :
+  g_rsa_request (JObj [(g_kty, JStr g_RSA); (g_bits, JInt 2049)]) = Some (2049%Z, 65537) /\
+  option_map (fun rk => N.size (rk_n rk)) (x_rsa g_demo_ext 2049 65537) = Some 2048 /\
+  jwk_gen g_demo_ext (JObj [(g_kty, JStr g_RSA); (g_bits, JInt 2049)]) = None /\
+  match jwk_gen g_demo_ext (JObj [(g_kty, JStr g_RSA); (g_bits, JInt 2050)]) with
+  | Some k => option_map N.size (g_member_num g_n k) = Some 2050 /\ lookup g_bits k = None
   | None => False
   end.
 Proof. vm_compute. repeat split; reflexivity. Qed.
@@ -274,14 +319,39 @@ Example ex_template_ok :
      JObj [(g_kty, JStr g_RSA); (g_bits, JInt 16385)];
      JObj [(g_kty, JStr g_RSA); (g_bits, JInt 4294969344)];             (* 2^32 + 2048: no narrowing any more *)
      JObj [(g_kty, JStr g_RSA); (g_e, JInt (-1))];
-     JObj [(g_kty, JStr g_RSA); (g_e, JInt (-65537))]]
+     JObj [(g_kty, JStr g_RSA); (g_e, JInt (-65537))];
+     JObj [(g_kty, JStr g_RSA); (g_bits, JInt 2049)];                   (* odd: the key would be one bit short *)
+     JObj [(g_kty, JStr g_RSA); (g_bits, JInt 2050)];
+     JObj [(g_alg, JStr ga_HS256); (g_bits, JInt 2049)]]                (* not an RSA request: "bits" is just deleted *)
   = [true; true; true; false; false; false; false; false; false; false; true; false; false; true; false; false; false; false;
-     false; true; false; false; false; false].
+     false; true; false; false; false; false; false; true; true].
 Proof. vm_compute. reflexivity. Qed.
 
 (* the hypotheses about OpenSSL's generators are satisfiable *)
 Example ex_rsa_good : g_rsa_good 12 17 g_demo_rsa.
 Proof. unfold g_rsa_good. vm_compute. repeat split; reflexivity. Qed.
+
+(* the hypotheses of C11_accepted_is_consistent / C11_rejects / C11_rsa_odd_size_rejected (size clause) and of
+   C11_accepts_iff (the generators deliver) are satisfiable: the demo generator meets all of them ... *)
+Example ex_demo_rsa_size : forall bits e rk,
+  (2 <= bits)%Z -> x_rsa g_demo_ext bits e = Some rk -> Z.of_N (N.size (rk_n rk)) = (2 * (bits / 2))%Z.
+Proof. exact g_demo_rsa_size. Qed.
+
+Example ex_demo_delivers :
+  wf_bytes (x_rand g_demo_ext) /\
+  (N.to_nat keymax <= length (x_rand g_demo_ext))%nat /\
+  (forall bits e, (2048 <= bits <= g_rsa_max_bits)%Z -> g_check_public_exponent e = true ->
+     exists rk, x_rsa g_demo_ext bits e = Some rk /\ Forall (fun mx => snd mx <> 0) (g_rsa_fields rk) /\
+                Z.of_N (N.size (rk_n rk)) = (2 * (bits / 2))%Z) /\
+  (forall c, exists ek, x_ec g_demo_ext c = Some ek /\
+     Forall (fun mx => snd mx <> 0 /\ g_num_bytes (snd mx) <= g_curve_len c) (g_ec_fields ek)).
+Proof. exact g_demo_delivers. Qed.
+
+(* ... so for it the decision is exact, without any hypothesis left *)
+Example ex_demo_accepts_iff : forall t,
+  g_plain_template t -> (jwk_gen g_demo_ext t <> None <-> g_template_ok t = true).
+Proof. exact g_demo_accepts_iff. Qed.
+Print Assumptions ex_demo_accepts_iff.
 
 Example ex_ec_good :
   g_ec_good GC256 {| ek_d := 1; ek_x := Z.to_N (c_gx p256); ek_y := Z.to_N (c_gy p256) |}.
